@@ -82,5 +82,19 @@ class RCounter(persistent.Persistent):
         return r
 
 
+class RCounterNA(RCounter):
+    """the same resolver on a class whose instances cannot be made without their constructor arguments"""
+
+    def __new__(cls, tag):
+        o = persistent.Persistent.__new__(cls)
+        return o
+
+    def __init__(self, tag):
+        self.c_tag = tag
+
+    def __getnewargs__(self):
+        return (self.c_tag,)
+
+
 class NoResolver(persistent.Persistent):
     pass
